@@ -41,3 +41,13 @@ NOT_APPLICABLE = {
     "C17": "catalog vs. disk under concurrent create/destroy: the quantifier is goroutine schedules over RWMutex/sync.Map and a pointer tree with no symbolic scalar content; the engine models one goroutine, and the sequential remainder would be enumeration of concrete runs, not solver-based checking",
     "C26": "replica connect/disconnect interleavings: unsynchronised map, close racing with send, gRPC streams - needs a scheduler and the Go memory model, which bounded symbolic execution of one goroutine cannot provide",
 }
+
+PROPS["C30"] = dict(
+    explanation="Bounded symbolic execution of the real io.TimeToIndex, IndexToTime, IndexToOffset, FileSize/nanosecondsInYear and, underneath them, the standard library's time.Date, absDate, daysSinceEpoch, Time.In/Year/YearDay/AddDate/Unix and zone lookup executed from their own SSA, with the timestamp (seconds 2000-2040 and nanoseconds) as symbolic variables; every assertion is decided by z3 for all instants at once per timeframe and zone.",
+    runs=[dict(pkg="utils/io", files=["c30_index.go"], entries=["VerifC30Index", "VerifC30Distinct"], must_reach=["entered"], opts=dict(timeout=60))],
+    bounds=["every timeframe of utils.Timeframes (1Sec..1D)", "every instant 2000-01-01..2040-12-31 at nanosecond precision (symbolic)", "record length 16..4096 (symbolic)",
+            "configured zone UTC and UTC+5 (thorough: also UTC-8 and UTC+5:30)", "second instant up to 2 days later, same local year"],
+    outside=["zones with daylight-saving transitions (tzdata-driven zone tables are not modelled; fixed offsets only)", "time.Local other than UTC", "years outside 2000..2040"],
+    stubs=["time.Time bit packing: semantic model (see C10)", "(*time.Location).get: time.Local = UTC"],
+    assumptions=COMMON_ASSUME + ["the process-local zone (time.Local, used by FileSize) is UTC"],
+)
